@@ -1,11 +1,11 @@
-(* C17, drained states and key managers: in every state reachable by core actions (requests without require-ack /
+(* C17, drained states, key managers and the reference-count floor: in every state reachable by core actions (requests without require-ack /
    millisecond flags and without value frames, clock advances, sweeps, role changes; runs of fewer than 2^24 - 2 actions)
    every key manager present has at least one lock record (refCount <> 0 and a stored record of its key); hence once
    every lock record has been freed there is no key manager left, KeyCount = LockedCount = WaitCount = 0 and no timeout /
    expiry structure holds a reference.  This completes C17_drained of C17.v. *)
 From Coq Require Import List NArith ZArith String Bool Lia.
 From Slock Require Import Engine.Types Engine.Queues Engine.Timers Engine.Engine Engine.Engine2 Engine.InvDef Engine.InvMain Engine.InvProps
-  Engine.RunDrain Engine.RunDrainMain.
+  Engine.RunDrain Engine.RunDrainMain Engine.RunDrainFloor Engine.RunDrainFloor2 Engine.RunDrainFloor5.
 Import ListNotations.
 Open Scope N_scope.
 
@@ -59,3 +59,34 @@ Example C17_manager_refcount_step_nonvacuous :
   Inv (init_db 1000000 1) /\ J2 (init_db 1000000 1) /\ next (init_db 1000000 1) < MAXREC
   /\ core_action (AReq 1 (make_cmd true 1 0 101 7 0 5 0 3 0 0 None)) = true.
 Proof. split; [apply inv_init|]. split; [apply J2_init|]. split; reflexivity. Qed.
+
+(* the reference-count floor: every stored lock record has refCount >= 1 (with C17_refcount_exact of C17.v: it is
+   referenced by a holder list, a wait queue, a wheel slot or a long table -- no stored record is leaked); a record
+   with an outstanding hold sits on the expiry wheel / long table exactly once; a released or expired record holds
+   nothing *)
+Theorem C17_refcount_floor : forall t0 a acts, core acts ->
+  forall r l, aget (store (fst (run (init_db t0 a) acts))) r = Some l ->
+    1 <= l_refc l
+    /\ (0 < l_locked l -> (occ r (wrefs (ewheel (fst (run (init_db t0 a) acts)))) + occ r (wrefs (elong (fst (run (init_db t0 a) acts)))) = 1)%nat)
+    /\ (l_expried l = true -> l_locked l = 0).
+Proof. exact reach_refc_floor. Qed.
+Goal True. idtac "ASSUMPTIONS-OF C17_refcount_floor". Abort.
+Print Assumptions C17_refcount_floor.
+Example C17_refcount_floor_nonvacuous :
+  core (firstn 4 c17d_hist)
+  /\ (exists l, aget (store (fst (run (init_db 1000000 1) (firstn 4 c17d_hist)))) 1 = Some l /\ l_refc l = 2 /\ l_locked l = 1)
+  /\ (exists l, aget (store (fst (run (init_db 1000000 1) (firstn 4 c17d_hist)))) 3 = Some l /\ l_refc l = 1 /\ l_expried l = true).
+Proof.
+  split; [split; [repeat constructor|vm_compute; reflexivity]|].
+  split; eexists; (split; [vm_compute; reflexivity|]); split; vm_compute; reflexivity.
+Qed.
+
+(* the inductive step of the floor (J1 /\ J3 /\ J4 as JR with an empty sweeper list) *)
+Theorem C17_refcount_floor_step : forall s a, Inv s -> JR s [] -> core_action a = true -> next s < MAXREC ->
+  Inv (fst (step s a)) /\ JR (fst (step s a)) [].
+Proof. exact (fun s a G HJ Ha Hb => conj (inv_step s a G Ha Hb) (JR_step s a G HJ Ha Hb)). Qed.
+Goal True. idtac "ASSUMPTIONS-OF C17_refcount_floor_step". Abort.
+Print Assumptions C17_refcount_floor_step.
+Example C17_refcount_floor_step_nonvacuous :
+  Inv (init_db 1000000 1) /\ JR (init_db 1000000 1) [] /\ next (init_db 1000000 1) < MAXREC.
+Proof. split; [apply inv_init|]. split; [apply JR_init|reflexivity]. Qed.
